@@ -14,3 +14,5 @@ import GstVerif.Rng.Model
 import GstVerif.Rng.Driver
 import GstVerif.Neigh.Model
 import GstVerif.Neigh.Driver
+import GstVerif.Vario.Model
+import GstVerif.Vario.Driver
